@@ -1119,11 +1119,7 @@ struct Tune {
 };
 static Tune tune_for(const Args& A, bool vg) {
   Tune t; t.T = !A.quick();
-  if (vg) {  // valgrind on the uninstrumented build: about a tenth of the quick enumeration
-    t.kparse = 2; t.kparsefull = 1; t.kparse_small = 0; t.kset1 = 1; t.set1states = 12; t.kset1_few = 0; t.kset2a = 0; t.kset2b = 0; t.set2states = 4; t.kset2wide = 0; t.set2widestates = 0;
-    t.set3vals = 0; t.set3states = 0; t.kparams = 2; t.pdepth = 1; t.pkeys = 4; t.kidna = 2; t.kidna_idn = 2; t.kcp = 2; t.kuni = 2; t.kuni_small = 0; t.kpat = 1; t.kpat_light = 0; t.kpatin = 1;
-    t.sweepbytes = 3; t.sweeptemplates = 2; t.kipv4 = 4; t.kcapi = 1;
-  } else if (!t.T) {
+  if (!t.T || vg) {  // valgrind on the uninstrumented build runs the quick-tier enumeration (10-40x smaller than thorough)
     t.kparse = 3; t.kparsefull = 2; t.kparse_small = 0; t.kset1 = 2; t.set1states = 6; t.kset1_few = 0; t.kset2a = 1; t.kset2b = 1; t.set2states = 2; t.kset2wide = 0; t.set2widestates = 0;
     t.set3vals = 3; t.set3states = 2; t.kparams = 3; t.pdepth = 2; t.pkeys = 7; t.kidna = 3; t.kidna_idn = 3; t.kcp = 3; t.kuni = 3; t.kuni_small = 0; t.kpat = 2; t.kpat_light = 0; t.kpatin = 2;
     t.sweepbytes = 6; t.sweeptemplates = 3; t.kipv4 = 4; t.kcapi = 2;
@@ -1583,19 +1579,29 @@ static void worker_enumerate(const Args& A, Walk& W, const Tune& t) {
 }
 
 // ================================================================== worker entry
-static Shared* map_shared(const std::string& path, bool create) {
-  int fd = open(path.c_str(), create ? (O_RDWR | O_CREAT | O_TRUNC) : O_RDWR, 0600);
-  if (fd < 0) return nullptr;
-  if (create && ftruncate(fd, off_t(sizeof(Shared))) != 0) { close(fd); return nullptr; }
+// The shared record is an unlinked file (tmpfs when there is one) handed to the worker as an inherited descriptor: nothing is
+// left behind whatever way the supervisor ends.
+static int g_shm_fd = -1;
+static Shared* map_shared_fd(int fd) {
   void* p = mmap(nullptr, sizeof(Shared), PROT_READ | PROT_WRITE, MAP_SHARED, fd, 0);
-  close(fd);
   return p == MAP_FAILED ? nullptr : static_cast<Shared*>(p);
+}
+static Shared* create_shared(const std::string& fallback_path) {
+  std::string path = fallback_path;
+  if (access("/dev/shm", W_OK) == 0) path = "/dev/shm/c02-raw-" + std::to_string(getpid()) + ".shm";
+  int fd = open(path.c_str(), O_RDWR | O_CREAT | O_TRUNC, 0600);
+  if (fd < 0 && path != fallback_path) { path = fallback_path; fd = open(path.c_str(), O_RDWR | O_CREAT | O_TRUNC, 0600); }
+  if (fd < 0) return nullptr;
+  unlink(path.c_str());
+  if (ftruncate(fd, off_t(sizeof(Shared))) != 0) { close(fd); return nullptr; }
+  g_shm_fd = fd;
+  return map_shared_fd(fd);
 }
 
 static void worker_setup(const Args& A) {
   g_vg = A.geti("vg", 0) != 0;
-  SH = map_shared(A.get("shm"), false);
-  if (!SH) { fprintf(stderr, "harness: cannot map %s\n", A.get("shm").c_str()); _exit(71); }
+  SH = map_shared_fd(int(A.geti("shmfd", -1)));
+  if (!SH) { fprintf(stderr, "harness: cannot map the shared record (descriptor %ld)\n", A.geti("shmfd", -1)); _exit(71); }
   g_viol_fd = open(A.get("viol").c_str(), O_WRONLY | O_CREAT | O_APPEND, 0600);
   SEEN_SIZE = A.quick() || g_vg ? (size_t(1) << 19) : (size_t(1) << 23);
   g_seen = static_cast<uint64_t*>(calloc(SEEN_SIZE, sizeof(uint64_t)));
@@ -1685,7 +1691,7 @@ static Death run_worker(const std::vector<std::string>& wargs, const std::string
     std::vector<char*> cv;
     for (auto& a : av) cv.push_back(const_cast<char*>(a.c_str()));
     cv.push_back(nullptr);
-    if (vg) execvp("valgrind", cv.data()); else execv(exe.c_str(), cv.data());
+    if (vg) execvp("valgrind", cv.data()); else execv("/proc/self/exe", cv.data());   // the running image, even if the file was replaced meanwhile
     _exit(127);
   }
   if (efd >= 0) close(efd);
@@ -1753,10 +1759,18 @@ static std::string ada_site(const std::string& t, bool* regex_above) {
     if (q != std::string::npos) {
       std::string f = l.substr(q + 4);
       if (f.rfind("ada::", 0) == 0 || f.rfind("ada_", 0) == 0) {
-        size_t c = f.find_first_of("([< ");
-        f = f.substr(0, c);
-        if (f.rfind("ada::", 0) == 0) f = f.substr(5);
-        return f;
+        // function name without template arguments, ABI tags and parameters: ada::url_pattern<X>::match(...) -> url_pattern::match
+        std::string o; int depth = 0;
+        for (size_t i = 0; i < f.size(); i++) {
+          char ch = f[i];
+          if (ch == '<') { depth++; continue; }
+          if (ch == '>') { if (depth > 0) depth--; continue; }
+          if (depth) continue;
+          if (ch == '(' || ch == '[' || ch == ' ') break;
+          o.push_back(ch);
+        }
+        if (o.rfind("ada::", 0) == 0) o = o.substr(5);
+        return o;
       }
       if (regex_above && (f.find("std::__detail::_") == 0 || f.find("std::__cxx11::regex_traits") == 0 || f.find("std::__cxx11::basic_regex") == 0)) *regex_above = true;
     }
@@ -1773,6 +1787,7 @@ static Kind classify_death(const Death& d) {
   bool regex_above = false;
   k.site = ada_site(t, &regex_above);
   if ((p = t.find("Assertion '")) != std::string::npos) { k.kind = "glibcxx-assertion"; k.detail = line_at(t, p); return k; }
+  if ((p = t.find("Assertion `")) != std::string::npos) { k.kind = "assert"; k.detail = line_at(t, p); return k; }
   if ((p = t.find("terminate called")) != std::string::npos) { k.kind = "terminate"; k.detail = line_at(t, p); size_t w = t.find("what():", p); if (w != std::string::npos) k.detail += " " + line_at(t, w); return k; }
   if ((p = t.find("AddressSanitizer: ")) != std::string::npos && t.compare(p + 18, 12, "DEADLYSIGNAL") == 0) p = t.find("AddressSanitizer: ", p + 18);
   if (p != std::string::npos && t.compare(p, 18, "AddressSanitizer: ") == 0) {
@@ -1825,7 +1840,7 @@ static void load_violation_lines(const std::string& path, Reporter& R) {
 static std::vector<std::string> passthrough(const Args& A) {
   std::vector<std::string> v = {"--tier", A.tier};
   for (auto& [k, val] : A.kv)
-    if (k != "shm" && k != "viol" && k != "samples" && k != "lsan" && k != "worker" && k != "resume" && k != "resume-stage" && k != "resume-unit" && k != "resume-sub" && k != "tend" && k != "tstart" && k != "budget" && k != "replay-doc") {
+    if (k != "shmfd" && k != "viol" && k != "samples" && k != "lsan" && k != "worker" && k != "resume" && k != "resume-stage" && k != "resume-unit" && k != "resume-sub" && k != "tend" && k != "tstart" && k != "budget" && k != "replay-doc") {
       v.push_back("--" + k); v.push_back(val);
     }
   return v;
@@ -1834,13 +1849,10 @@ static std::vector<std::string> passthrough(const Args& A) {
 static int supervise(const Args& A) {
   const bool vg = A.geti("vg", 0) != 0;
   const std::string out = A.out.empty() ? std::string("/tmp/c02-raw-") + std::to_string(getpid()) + ".json" : A.out;
-  // the shared record lives on tmpfs when there is one: a disk-backed MAP_SHARED file costs a write-protect fault per dirtied page and writeback cycle
-  std::string shm = out + ".shm";
-  if (access("/dev/shm", W_OK) == 0) shm = "/dev/shm/c02-raw-" + std::to_string(getpid()) + ".shm";
   const std::string viol = out + ".viol", samp = out + ".samples", err = out + ".stderr", lsan = out + ".lsan";
   unlink(viol.c_str()); unlink(samp.c_str());
-  SH = map_shared(shm, true);
-  if (!SH) { fprintf(stderr, "harness: cannot create %s\n", shm.c_str()); return 3; }
+  SH = create_shared(out + ".shm");
+  if (!SH) { fprintf(stderr, "harness: cannot create the shared record\n"); return 3; }
   const double t0 = now_s();
   const double deadline = A.deadline_s < 1e8 ? A.deadline_s : (A.quick() ? 240.0 : 1700.0);
   const double watchdog = atof(A.get("watchdog", vg ? "60" : "15").c_str());   // CPU seconds inside one call
@@ -1851,7 +1863,7 @@ static int supervise(const Args& A) {
   std::string harness_failure;
   for (;;) {
     std::vector<std::string> w = passthrough(A);
-    for (auto& s : std::vector<std::string>{"--worker", "1", "--shm", shm, "--viol", viol, "--samples", samp, "--lsan", lsan, "--shard", std::to_string(A.shard) + "/" + std::to_string(std::max(1, A.nshards)),
+    for (auto& s : std::vector<std::string>{"--worker", "1", "--shmfd", std::to_string(g_shm_fd), "--viol", viol, "--samples", samp, "--lsan", lsan, "--shard", std::to_string(A.shard) + "/" + std::to_string(std::max(1, A.nshards)),
                                             "--resume", resume ? "1" : "0", "--resume-stage", std::to_string(rs), "--resume-unit", std::to_string(ru), "--resume-sub", std::to_string(rsub), "--tend", std::to_string(t0 + deadline), "--tstart", std::to_string(t0), "--budget", std::to_string(deadline)})
       w.push_back(s);
     SH->finished = 0; SH->in_call = 0;
@@ -1896,7 +1908,7 @@ static int supervise(const Args& A) {
   }
   if (!harness_failure.empty()) {
     fprintf(stderr, "HARNESS-FAILURE %s\n", harness_failure.c_str());
-    for (const std::string& f : {shm, viol, samp, err, lsan}) unlink(f.c_str());
+    for (const std::string& f : {viol, samp, err, lsan}) unlink(f.c_str());
     fflush(stderr);
     _exit(3);
   }
@@ -1955,7 +1967,7 @@ static int supervise(const Args& A) {
     while (b < all.size()) { size_t e = all.find('\n', b); if (e == std::string::npos) e = all.size(); if (e > b) R.sample(all.substr(b, e - b)); b = e + 1; }
   }
   bool ok = R.write(out, extra);
-  for (const std::string& f : {shm, viol, samp, err, lsan}) unlink(f.c_str());
+  for (const std::string& f : {viol, samp, err, lsan}) unlink(f.c_str());
   fflush(stdout); fflush(stderr);
   _exit(ok ? 0 : 3);
 }
@@ -1967,14 +1979,12 @@ static int supervise_replay(const Args& A) {
   char tmpl[] = "/tmp/c02-replay-XXXXXX";
   int tfd = mkstemp(tmpl);
   if (tfd >= 0) close(tfd);
-  std::string shm = std::string(tmpl) + ".shm";
-  if (access("/dev/shm", W_OK) == 0) shm = "/dev/shm/c02-replay-" + std::to_string(getpid()) + ".shm";
   const std::string base = tmpl, viol = base + ".viol", err = base + ".stderr", lsan = base + ".lsan";
-  SH = map_shared(shm, true);
-  if (!SH) { printf("harness: cannot create %s\n", shm.c_str()); return 0; }
+  SH = create_shared(base + ".shm");
+  if (!SH) { printf("harness: cannot create the shared record\n"); return 0; }
   std::vector<std::string> w = passthrough(A);
   std::string tier = json_get_str(doc, "tier");
-  for (auto& s : std::vector<std::string>{"--worker", "2", "--shm", shm, "--viol", viol, "--lsan", lsan, "--replay-doc", A.replay, "--vg", vg ? "1" : "0"}) w.push_back(s);
+  for (auto& s : std::vector<std::string>{"--worker", "2", "--shmfd", std::to_string(g_shm_fd), "--viol", viol, "--lsan", lsan, "--replay-doc", A.replay, "--vg", vg ? "1" : "0"}) w.push_back(s);
   Death d = run_worker(w, err, vg, atof(A.get("watchdog", vg ? "60" : "15").c_str()));
   Reporter R;
   if (d.died && d.over_deadline) { printf("inconclusive: the replay worker made no progress for a very long time without using CPU (machine overloaded?)\n"); d.died = false; }
@@ -1997,7 +2007,7 @@ static int supervise_replay(const Args& A) {
   if (R.by_class.empty()) printf("not reproduced: every call of the case returned normally\n  %s\n", json_get_str(doc, "show").c_str());
   else if (d.died) printf("---- worker output ----\n%s\n", d.text.substr(0, 2500).c_str());
   int rc = R.by_class.empty() ? 0 : 1;
-  for (const std::string& f : {base, shm, viol, err, lsan}) unlink(f.c_str());
+  for (const std::string& f : {base, viol, err, lsan}) unlink(f.c_str());
   fflush(stdout);
   _exit(rc);
 }
